@@ -376,6 +376,14 @@ def _field_tables_not_written(ctx):
     r3_self_array_writes(ctx, ("bionumpy.io.file_buffers", "bionumpy.io.delimited_buffers"), floor=0)   # a number parsed twice from the same buffer is cut with the same field table
 
 
+
+def _round7_signs_and_lazy_join(ctx):
+    from .round7 import sign_only_in_first_column
+    sign_only_in_first_column(ctx, "C18-R12")
+    from .c02 import RULES as _c02
+    fn = dict(_c02)["C02-R10"]
+    fn(ctx)          # numbers of a lazily read, filtered and re-joined table are parsed from the joined text: its offsets must describe the text that was joined
+
 RULES = [
     ("C18-R1", r1_formatting),
     ("C18-R2", r2_parsing),
@@ -390,4 +398,5 @@ RULES = [
     ("C18-R9", r9_digit_fast_path),
     ("C18-R10", _optional_int_formatter),
     ("C18-R11", _field_tables_not_written),
+    ("C18-R12", _round7_signs_and_lazy_join),
 ]
